@@ -11,6 +11,19 @@ var (
 	Limit = 100000
 )
 
+// SweepSpec drives one call in table-sweep mode (see pick).
+type SweepSpec struct {
+	Index, Value int
+	Hit          bool // the designated draw was reached with a range holding Value
+	seen         int
+}
+
+// Seen reports how many draws on a range of 9..64 values the call made.
+func (s *SweepSpec) Seen() int { return s.seen }
+
+// Sweep, when set, overrides C.
+var Sweep *SweepSpec
+
 type LimitExceeded struct{}
 
 func (LimitExceeded) Error() string { return "random draws limit exceeded (non-termination)" }
@@ -27,6 +40,19 @@ func pick(site string, n int) int {
 	tick()
 	if n <= 0 {
 		panic("invalid argument to Intn")
+	}
+	if Sweep != nil {
+		// table sweep: every draw answers 0, except the Sweep.Index-th draw on a range of 9..64 values
+		// (an index into a small table), which answers Sweep.Value
+		if n > 8 && n <= 64 {
+			i := Sweep.seen
+			Sweep.seen++
+			if i == Sweep.Index && Sweep.Value < n {
+				Sweep.Hit = true
+				return Sweep.Value
+			}
+		}
+		return 0
 	}
 	if C == nil {
 		return 0
